@@ -47,6 +47,7 @@ class SearchCtx:
         self.xs = []          # brentq points [(x_ret, x_last)]
         self.init_calls = []  # (field idx, hk, specifier) of every GHE construction
         self.flow_records = []
+        self.hvals = {}       # height key -> height
         self.upper, self.lower = upper, lower
         self.min_h = self.num('min_h', 20, 300) if min_h is None else min_h
         self.max_h = self.num('max_h', 21, 400) if max_h is None else max_h
@@ -95,6 +96,7 @@ class SearchCtx:
     def eft(self, coords, h):
         i = self.field_idx(coords)
         hk = self.hkey(h)
+        self.hvals[hk] = h
         self.evals.append((i, hk))
         return self.ab(i, hk)
 
@@ -119,6 +121,14 @@ class SearchCtx:
                 xr, xl = self.xs[k]
                 a0, b0 = self.ab(i, 'xl%d' % k)
                 self.e.assume((abs(a - a0) <= abs(xr - xl)) & (abs(b - b0) <= abs(xr - xl)))
+            if self.e is not None and hk.startswith('h_') and hk in self.hvals:
+                # a height that is none of the bounds / solver points (e.g. a rounded one): the same 1 K/m Lipschitz assumption ties its
+                # temperatures to those of the same field at the heights already evaluated
+                h = self.hvals[hk]
+                for (j, hk2), (a2, b2) in list(self.vals.items()):
+                    if j == i and hk2 in self.hvals:
+                        d = abs(h - self.hvals[hk2])
+                        self.e.assume((abs(a - a2) <= d) & (abs(b - b2) <= d))
             self.vals[(i, hk)] = (a, b)
         return self.vals[(i, hk)]
 
